@@ -94,8 +94,11 @@ def finish(pid, P, props, tier, seed, results, known, t0, warnings, scratch_root
             continue
         seen_k.add(key)
         out_lines.append("KNOWN-FINDING: property=%s %s [%s]" % (pid, k.get("what", ""), k.get("obligation")))
+    # obligations listed as known findings are reported separately (coverage.known_findings_matched), not counted
+    kf_ids = set(rec["obligation"] for _, rec in known_hits)
+    obligations = [o for o in obligations if o["id"] not in kf_ids]
     n_ob = len(obligations)
-    failed_ids = set(v["obligation"] for v in violations) | set(rec["obligation"] for _, rec in known_hits)
+    failed_ids = set(v["obligation"] for v in violations)
     n_dis = len([o for o in obligations if o["discharged"] and o["id"] not in failed_ids])
     wall = time.time() - t0
     level = P.get("level", "proof")
